@@ -1459,7 +1459,11 @@ func (s *Sess) genSteer() *Op {
 			return &Op{K: OpRead, H: o.FH, Off: off, Count: r.PickU32([]uint32{1, 4096, 20000})}
 		}
 		if o := small(); o != nil {
-			return &Op{K: OpSetattr, H: o.FH, SetSize: true, Size: uint64(9+r.Intn(1200)) * BlockSize}
+			// make one (the indirect range of the grown file is a hole without an
+			// index block) and read from the hole right afterwards
+			nb := uint64(9 + r.Intn(1200))
+			s.queue = append(s.queue, &Op{K: OpRead, H: o.FH, Off: (8 + r.U64()%(nb-8)) * BlockSize, Count: r.PickU32([]uint32{1, 4096, 20000})})
+			return &Op{K: OpSetattr, H: o.FH, SetSize: true, Size: nb * BlockSize}
 		}
 	case 0, 1: // first write into the indirect range of a small file: indirect block + data block
 		if o := small(); o != nil {
